@@ -42,6 +42,30 @@ CLAIMED = {
   text="For every value at once (the maps are symbolic in the field/wire bits, not sampled): RT - for Header, ReceptionReport (24-bit loss), RunLengthChunk, CCFB metric block, NACK pair, SLI entry and FIR entry the encoder's map wire bit <- field bit composed with the decoder's map field bit <- wire bit is the identity in both directions; ENC/DEC - both maps equal the RFC layout (offset, width, big-endian order, constant bits); NR - a not-received metric block decodes to zero fields; CNT - Header.Marshal returns nil only with Count <= 31; VER - Header.Unmarshal rejects all 192 first octets whose version is not 2; CHK - every return of the XR chunk accessors selects the RFC 3611 bits and the terminating-null case is a comparison of the whole word with 0. Level other because StatusVectorChunk and RecvDelta are outside the engine (listed as not covered; C13 decides the delta width/scale) and the identity claim is for values that fit their wire width.",
   note="Trusted: go/ssa, checker/bits transfer functions, layout tables in props/layout.go written from the RFCs, checker/pe and checker/num for VER/CNT.",
   design="DESIGN.md §2 C16"),
+ "C15": dict(
+  level="other",
+  technique="static analysis: bit-provenance abstract interpretation of setupBlockHeader/unpackBlockHeader, go/types walk of the block structs (type-shape), SSA dominator conditions of the block type switch, numeric abstract interpretation of the block split",
+  text="Decides structural clauses of the XR block codec for all values: BT - each setupBlockHeader stores the registered RFC 3611 block type; DSP - the reader's type switch maps exactly the registered constants to their Go types and everything else to UnknownReportBlock; TS - the type-specific octet written equals the RFC 3611 table (T in the low 4 bits, L/D/J and 2-bit ToH, reserved zero) and unpackBlockHeader inverts it bit for bit; LAY - the octet widths of each block struct in declaration order equal the RFC layout; BL - blocks are split at exactly 4*(BlockLength+1) (integer identity, no uint16 wrap) and setupBlockHeader stores BlockLength = wireSize/4-1; UNK - UnknownReportBlock passes type and type-specific octet through and its wire form is header + raw octets. It does not execute any block sequence: 'decode in order and independently' is argued from the split identity plus C01's bounds on the reflective reader.",
+  note="Trusted: go/ssa, go/types, checker/bits, checker/num, the declaration-order walk of the reflective codec (guarded by C01 B-RFL/T-REC), RFC 3611 tables in props/c15.go. Assumes aligned blocks (findings F14a-c).",
+  design="DESIGN.md §2 C15"),
+ "C03": dict(
+  level="other",
+  technique="static analysis: bit-provenance abstract interpretation of every Marshal compared with RFC layout tables; registry cross-check of the table constants",
+  text="For all values at once: the map wire bit <- source extracted from each of 16 encoders (packet types and helper units, list entries at their stride) equals the RFC layout table: field bits at their octet/bit positions in big-endian order, version 1 0, registered packet type and FMT/count bits, constant octets, reserved bits zero; the PT/FMT constants of the tables agree with the IANA registry table; XR block type, type-specific octet and field widths equal RFC 3611. Not a comparison against a reference encoder's output: values are never instantiated. Header length is C05's, variable tails and float-derived REMB bits are listed as not covered.",
+  note="Trusted: go/ssa, checker/bits, layout tables props/layout.go, registry. SLI's packet type octet is left to C07 (finding F10a).",
+  design="DESIGN.md §2 C03"),
+ "C04": dict(
+  level="other",
+  technique="static analysis: bit-provenance abstract interpretation of every Unmarshal compared with RFC layout tables; numeric abstract interpretation for the count guards",
+  text="For all inputs at once: the map field bit <- input octet/bit at the successful returns of 14 decoders equals the RFC layout (each field from exactly its wire bits, upper bits zero, no dependency on reserved bits); CNT - SR, RR and SDES return nil only if the number of decoded elements equals the header count; XR - unpackBlockHeader takes each field from its RFC 3611 bits, unknown block types reach UnknownReportBlock, blocks are split at 4*(BlockLength+1). Alternative encodings whose acceptance depends on run-time arithmetic (TWCC chunkings, REMB normalisation, APP padding, BYE reason) are not covered.",
+  note="Trusted: go/ssa, checker/bits, checker/num, layout tables.",
+  design="DESIGN.md §2 C04"),
+ "C02": dict(
+  level="other",
+  technique="static analysis: composition of the bit-provenance maps of every encoder/decoder pair, set comparison of encoded and decoded fields, constant-propagation dispatch table",
+  text="Three clauses each necessary for encode-then-decode to be the identity, for all values at once: SYM - the fields whose bits reach the wire equal the integer fields the decoder stores; LAY - encoder map composed with decoder map is the identity on every field bit that reaches the wire and every wire bit the decoder uses (fixed parts and per-entry strides) for 14 pairs; DSP - the (PT,FMT) each Marshal emits dispatches back to its own Go type (SliceLossIndication: open finding F10d); XR - setup/unpackBlockHeader invert each other on the type-specific octet. Necessary, not sufficient: variable-length parts, list equality and re-marshal byte equality need run-time values and are not covered.",
+  note="Trusted: go/ssa, checker/bits, checker/pe, registry.",
+  design="DESIGN.md §2 C02"),
  "C08": dict(
   level="other",
   technique="static analysis: abstract interpretation of go/ssa (linear constraints, exact fixed-width wrap-around) of every encoder with per-call-string narrowing obligations and an error-discipline rule",
